@@ -1,7 +1,731 @@
-"""File-system, effect-trace and callback models on top of pyvc.lib (filled in below)."""
+"""File-system, effect-trace, allocation and callback models on top of pyvc.lib.
+
+Ghost state (contracts/shapes.py): fs_kind (real file system), eff (sequence of mutating primitives
+executed by the library), ncalls (user callbacks invoked), alloc (allocated objects).
+
+OS axioms (trusted, DESIGN 2.10): each mutating primitive either has its POSIX effect or raises an
+OSError subclass without effect; every one of them may fail non-deterministically ("OtherOSError").
+Every call of a mutating primitive generates a `guard@` obligation when a guard is registered for
+it (C03) and is appended to `eff` whether or not it succeeds (an attempt counts).
+"""
+import ast
+import z3
+
 from .lib import *      # noqa
-from .lib import Intrinsics
+from .lib import Intrinsics, ClsTagV, EmptyDictV, EmptySetV, exc_name
+from .sorts import *    # noqa
+from .values import *   # noqa
+from spec import json_spec as J
+
+FS_ASSUMPTIONS = [
+    'os.path.isfile/isdir/exists read the ghost file system fs_kind; no symlinks inside the managed '
+    'tree; sequential execution (no external change during a call)',
+    'os.mkdir/rmdir/remove/rename/replace/makedirs have the POSIX effect on fs_kind or raise an '
+    'OSError subclass without effect; each may fail non-deterministically',
+    'os.fsdecode/os.path.abspath: abspath(fsdecode(x)) is a str for str/bytes/PathLike and raises '
+    'TypeError otherwise; abspath is idempotent',
+    'gzip.open(..., "rt")/json.load/open(..., "r"|"rb")/os.stat/os.listdir/hashlib are read-only',
+    'user callbacks may call any builder method, change the file system, return any object or '
+    'raise any Exception; they do not touch private fields directly',
+]
+
+
+def _effect():
+    from contracts.shapes import Effect
+    return Effect
+
+
+def parent_is_dir(kind, p):
+    return kind[dirname(p)] == K_DIR
 
 
 class FsIntrinsics(Intrinsics):
-    pass
+
+    def __init__(self):
+        super().__init__()
+        self.guards = {}        # primitive name -> callable(eng, st, args) -> list[(label, formula)]
+        self.class_stack = []
+
+    # ---- names -----------------------------------------------------------------------------------
+    def builtin(self, n):
+        if n in ('open', 'super', 'getattr', 'callable'):
+            return IntrinsicV(n)
+        return super().builtin(n)
+
+    def dotted(self, eng, d):
+        if d == 'pathlib.Path':
+            return IntrinsicV('pathlib.Path')
+        return super().dotted(eng, d)
+
+    def class_attr(self, eng, st, cls, attr, node):
+        if cls == 'FileBuilder' and attr == '_IS_WINDOWS':
+            return False
+        if cls == 'Cache' and attr == '_CACHE_FILE_VERSION':
+            return Sym(PyV.PNone, PYV)
+        if cls == 'Cache' and attr == '_OPERATION_VERSIONS':
+            return Sym(PyV.PDict(KVs.knil), PYV)
+        if cls == 'Cache' and attr == '_SOFTWARE':
+            return node.value
+        if cls == 'SimpleOperationExecutor' and attr == 'OPERATIONS':
+            # set([...literal strings...])
+            names = set()
+            for x in ast.walk(node):
+                if isinstance(x, ast.Constant) and isinstance(x.value, str):
+                    names.add(x.value)
+            return ('strset', frozenset(names))
+        return super().class_attr(eng, st, cls, attr, node)
+
+    def class_member(self, eng, st, v, attr):
+        if v.name == 'FileComparison':
+            o = self.enum_member(eng, st, attr)
+            return o
+        return super().class_member(eng, st, v, attr)
+
+    def enum_member(self, eng, st, name):
+        o = z3.Const('FileComparison!' + name, ObjS)
+        st.assume(cls_of(o) == CLS['FileComparison'])
+        st.assume(eng.hread(st, 'FileComparison.name', o) == str_lit(name))
+        st.assume(z3.Select(eng.gread(st, 'alloc'), o))
+        return Sym(o, OBJ('FileComparison'))
+
+    # ---- allocation ------------------------------------------------------------------------------
+    def new_object(self, eng, st, cls):
+        o = fresh('new_' + cls, ObjS)
+        al = eng.gread(st, 'alloc')
+        st.assume(z3.Not(z3.Select(al, o)))
+        eng.gwrite(st, 'alloc', z3.Store(al, o, True))
+        if cls in CLS:
+            st.assume(cls_of(o) == CLS[cls])
+        return Sym(o, OBJ(cls), fresh=True)
+
+    def construct_extra(self, eng, st, cls, pos, kws, node):
+        n = cls.name
+        if n in eng.prog.classes:
+            obj = self.new_object(eng, st, n)
+            init = eng.prog.find_method(n, '__init__')
+            if init is None:
+                return [(st, obj)]
+            outs = []
+            self.class_stack.append(init.cls)
+            try:
+                res = eng.call_repo(st, init.qualname, [obj] + pos, kws, node)
+            finally:
+                self.class_stack.pop()
+            for (s1, v) in res:
+                outs.append((s1, v if isinstance(v, Raise) else obj))
+            return outs
+        return super().construct_extra(eng, st, cls, pos, kws, node)
+
+    def i_super(self, eng, st, f, pos, kws, node):
+        cls = eng.inline_class_stack[-1] if getattr(eng, 'inline_class_stack', None) else None
+        if cls is None:
+            raise Unsupported('super() outside a method')
+        bases = eng.prog.class_bases.get(cls, [])
+        if not bases:
+            raise Unsupported('super() without base')
+        return [(st, ('super', bases[0], st.env.get('self')))]
+
+    def value_attr(self, eng, st, v, attr, node):
+        if isinstance(v, tuple) and v and v[0] == 'super':
+            fi = eng.prog.find_method(v[1], attr)
+            if fi is None:
+                raise Unsupported('super().%s' % attr)
+            return FuncV(fi.qualname, v[2])
+        if isinstance(v, Sym) and v.ty.kind == 'tup':
+            raise Unsupported('attribute of tuple')
+        if isinstance(v, Sym) and v.ty.kind == 'obj' and v.ty.cls == 'StatResult':
+            if attr in ('st_size', 'st_mtime_ns', 'st_mode'):
+                return Sym(z3.Function('stat_' + attr, ObjS, IntS)(v.t), INT)
+        if isinstance(v, Sym) and v.ty.kind == 'obj' and v.ty.cls == 'FileObj' and attr in (
+                'read', 'write'):
+            return IntrinsicV('file.' + attr, v)
+        if isinstance(v, Sym) and v.ty.kind == 'obj' and v.ty.cls == 'Digest' and attr in (
+                'update', 'hexdigest'):
+            return IntrinsicV('digest.' + attr, v)
+        return super().value_attr(eng, st, v, attr, node)
+
+    def obj_attr(self, eng, st, v, attr, node):
+        return self.value_attr(eng, st, v, attr, node)
+
+    def get_item_extra(self, eng, st, cont, key, node):
+        if isinstance(cont, Sym) and cont.ty.kind == 'tup' and isinstance(key, int):
+            srt = cont.ty.sort()
+            acc = getattr(srt, 't%d' % key)
+            return [(st, Sym(acc(cont.t), cont.ty.args[key]))]
+        if isinstance(cont, ClassV) and cont.name == 'FileComparison':
+            # FileComparison[name]: KeyError unless a member name
+            name = lift(key)
+            outs = []
+            for (s1, ok) in eng.branch(st, z3.Or(name == str_lit('METADATA'),
+                                                 name == str_lit('HASH')), 'E%d' % node.lineno):
+                if ok:
+                    o = fresh('fcmp', ObjS)
+                    s1.assume(cls_of(o) == CLS['FileComparison'])
+                    s1.assume(eng.hread(s1, 'FileComparison.name', o) == name)
+                    outs.append((s1, Sym(o, OBJ('FileComparison'))))
+                else:
+                    outs.append((s1, Raise(new_exc('KeyError'))))
+            return outs
+        return super().get_item_extra(eng, st, cont, key, node)
+
+    def elem(self, x, ety):
+        if ety.kind == 'tup' and isinstance(x, TupleV):
+            srt = ety.sort()
+            return srt.mk(*[self.elem(v, t) for v, t in zip(x.items, ety.args)])
+        return super().elem(x, ety)
+
+    def isinstance_extra(self, eng, st, v, cl):
+        if isinstance(v, CallbackV):
+            return z3.BoolVal(False)
+        if isinstance(v, ExcV):
+            return exc_issub(v.cls, cl.name) if cl.name in EXC else z3.BoolVal(False)
+        return super().isinstance_extra(eng, st, v, cl)
+
+    # ---- effects -----------------------------------------------------------------------------------
+    def effect(self, eng, st, eff_term, prim, args, node):
+        """record an attempt of a mutating primitive + its guard obligations"""
+        g = (getattr(eng.cur_contract, 'guards', None) or {}).get(prim) or self.guards.get(prim)
+        if g is not None:
+            for (label, f, props) in g(eng, st, args):
+                eng.oblige(st, f, 'guard', '%s.%s@L%s' % (prim, label, node.lineno), props=props,
+                           line=node.lineno)
+        e = eng.gread(st, 'eff')
+        eng.gwrite(st, 'eff', z3.Concat(e, z3.Unit(eff_term)))
+
+    def lib_effects(self, call):
+        f = call.func
+        name = None
+        if isinstance(f, ast.Attribute):
+            # only module-level library calls (os.remove, shutil.rmtree, ...), not set.remove
+            if isinstance(f.value, ast.Name) and f.value.id in ('os', 'shutil', 'tempfile',
+                                                                'gzip'):
+                name = f.attr
+        elif isinstance(f, ast.Name):
+            name = f.id
+        if name in ('mkdir', 'rmdir', 'remove', 'rename', 'replace', 'makedirs', 'rmtree',
+                    'mkdtemp'):
+            return {'fs_kind', 'eff', 'fs_epoch'}
+        if name in ('open',) and isinstance(f, ast.Attribute):
+            return {'fs_kind', 'eff', 'fs_epoch'}
+        return set()
+
+    def may_fail(self, eng, st, node, classes=('OtherOSError',)):
+        """non-deterministic failure without effect"""
+        outs = []
+        for c in classes:
+            s1 = st.fork()
+            s1.trace.append('fail%d:%s' % (node.lineno, c))
+            outs.append((s1, Raise(new_exc(c, 'os'))))
+        return outs
+
+    def kind(self, eng, st):
+        return eng.gread(st, 'fs_kind')
+
+    def path(self, eng, st, v, node):
+        """z3 Str term of a path argument (an Optional[str] field must not be None here)"""
+        if isinstance(v, Sym) and v.ty.kind == 'opt' and v.ty.args[0].kind == 'str':
+            eng.oblige(st, v.ty.sort().is_some(v.t), 'type', 'path-not-None@L%d' % node.lineno,
+                       line=node.lineno)
+            return v.ty.sort().val(v.t)
+        if isinstance(v, Sym) and v.ty.kind == 'pyv':
+            return PyV.ps(J.base_of(v.t))
+        return lift(v)
+
+    def i_os_path_isfile(self, eng, st, f, pos, kws, node):
+        return [(st, Sym(self.kind(eng, st)[lift(pos[0])] == K_FILE, BOOL))]
+
+    def i_os_path_isdir(self, eng, st, f, pos, kws, node):
+        return [(st, Sym(self.kind(eng, st)[lift(pos[0])] == K_DIR, BOOL))]
+
+    def i_os_path_exists(self, eng, st, f, pos, kws, node):
+        return [(st, Sym(self.kind(eng, st)[lift(pos[0])] != K_ABSENT, BOOL))]
+
+    def i_os_path_islink(self, eng, st, f, pos, kws, node):
+        return [(st, False)]
+
+    def i_os_path_getsize(self, eng, st, f, pos, kws, node):
+        p = self.path(eng, st, pos[0], node)
+        outs = []
+        for (s1, ex) in eng.branch(st, self.kind(eng, st)[p] != K_ABSENT, 'G%d' % node.lineno):
+            if ex:
+                outs.append((s1, Sym(z3.Function('fs_size', StrS, IntS, IntS)(
+                    p, eng.gread(s1, 'fs_epoch')), INT)))
+            else:
+                outs.append((s1, Raise(new_exc('FileNotFoundError', 'os'))))
+        outs.extend(self.may_fail(eng, st, node))
+        return outs
+
+    def i_os_fsdecode(self, eng, st, f, pos, kws, node):
+        v = pos[0]
+        if isinstance(v, Sym) and v.ty.kind == 'str':
+            return [(st, v)]
+        if isinstance(v, str):
+            return [(st, v)]
+        if isinstance(v, Sym) and v.ty.kind == 'pyv':
+            b = J.base_of(v.t)
+            outs = []
+            for (s1, isstr) in eng.branch(st, J.is_str(b), 'FS%d' % node.lineno):
+                if isstr:
+                    outs.append((s1, Sym(PyV.ps(b), STR)))
+                else:
+                    # bytes / PathLike decode to some str; anything else is a TypeError
+                    s2 = s1.fork()
+                    outs.append((s2, Sym(fresh('fsdecoded', StrS), STR)))
+                    outs.append((s1, Raise(new_exc('TypeError', 'os'))))
+            return outs
+        raise Unsupported('os.fsdecode(%r)' % (v,))
+
+    def i_os_path_abspath(self, eng, st, f, pos, kws, node):
+        return [(st, Sym(abspath(lift(pos[0])), STR))]
+
+    def i_os_mkdir(self, eng, st, f, pos, kws, node):
+        E = _effect()
+        p = self.path(eng, st, pos[0], node)
+        self.effect(eng, st, E.Mkdir(p), 'mkdir', [p], node)
+        kind = self.kind(eng, st)
+        outs = []
+        # success
+        s1 = st.fork()
+        s1.assume(z3.And(kind[p] == K_ABSENT, z3.Or(dirname(p) == p, kind[dirname(p)] == K_DIR)))
+        if eng.feasible(s1):
+            eng.gwrite(s1, 'fs_kind', z3.Store(kind, p, K_DIR))
+            s1.trace.append('mkdir%d:ok' % node.lineno)
+            outs.append((s1, None))
+        s2 = st.fork()
+        s2.assume(kind[p] != K_ABSENT)
+        if eng.feasible(s2):
+            s2.trace.append('mkdir%d:exists' % node.lineno)
+            outs.append((s2, Raise(new_exc('FileExistsError', 'os'))))
+        s3 = st.fork()
+        s3.assume(z3.And(kind[p] == K_ABSENT, dirname(p) != p, kind[dirname(p)] == K_ABSENT))
+        if eng.feasible(s3):
+            s3.trace.append('mkdir%d:noparent' % node.lineno)
+            outs.append((s3, Raise(new_exc('FileNotFoundError', 'os'))))
+        s4 = st.fork()
+        s4.assume(z3.And(kind[p] == K_ABSENT, dirname(p) != p, kind[dirname(p)] == K_FILE))
+        if eng.feasible(s4):
+            s4.trace.append('mkdir%d:notdir' % node.lineno)
+            outs.append((s4, Raise(new_exc('NotADirectoryError', 'os'))))
+        outs.extend(self.may_fail(eng, st, node))
+        return outs
+
+    def empty_dir(self, kind, p):
+        c = z3.Const('qx!child', StrS)
+        return z3.ForAll([c], z3.Implies(z3.And(dirname(c) == p, c != p), kind[c] == K_ABSENT))
+
+    def i_os_rmdir(self, eng, st, f, pos, kws, node):
+        E = _effect()
+        p = self.path(eng, st, pos[0], node)
+        self.effect(eng, st, E.Rmdir(p), 'rmdir', [p], node)
+        kind = self.kind(eng, st)
+        outs = []
+        s1 = st.fork()
+        s1.assume(z3.And(kind[p] == K_DIR, self.empty_dir(kind, p)))
+        eng.gwrite(s1, 'fs_kind', z3.Store(kind, p, K_ABSENT))
+        s1.trace.append('rmdir%d:ok' % node.lineno)
+        outs.append((s1, None))
+        # any failure: not a directory, missing, not empty, permission ...: some OSError, no effect
+        for c in ('FileNotFoundError', 'NotADirectoryError', 'OtherOSError'):
+            s2 = st.fork()
+            if c == 'FileNotFoundError':
+                s2.assume(kind[p] == K_ABSENT)
+            elif c == 'NotADirectoryError':
+                s2.assume(kind[p] == K_FILE)
+            if eng.feasible(s2):
+                s2.trace.append('rmdir%d:%s' % (node.lineno, c))
+                outs.append((s2, Raise(new_exc(c, 'os'))))
+        return outs
+
+    def i_os_remove(self, eng, st, f, pos, kws, node):
+        E = _effect()
+        p = self.path(eng, st, pos[0], node)
+        self.effect(eng, st, E.Remove(p), 'remove', [p], node)
+        kind = self.kind(eng, st)
+        outs = []
+        s1 = st.fork()
+        s1.assume(kind[p] == K_FILE)
+        if eng.feasible(s1):
+            eng.gwrite(s1, 'fs_kind', z3.Store(kind, p, K_ABSENT))
+            s1.trace.append('remove%d:ok' % node.lineno)
+            outs.append((s1, None))
+        for c, cond in (('FileNotFoundError', kind[p] == K_ABSENT),
+                        ('IsADirectoryError', kind[p] == K_DIR), ('OtherOSError', None)):
+            s2 = st.fork()
+            if cond is not None:
+                s2.assume(cond)
+            if eng.feasible(s2):
+                s2.trace.append('remove%d:%s' % (node.lineno, c))
+                outs.append((s2, Raise(new_exc(c, 'os'))))
+        return outs
+
+    def _move(self, eng, st, pos, node, prim):
+        E = _effect()
+        a, b = self.path(eng, st, pos[0], node), self.path(eng, st, pos[1], node)
+        self.effect(eng, st, (E.Rename if prim == 'rename' else E.Replace)(a, b), prim, [a, b], node)
+        kind = self.kind(eng, st)
+        outs = []
+        s1 = st.fork()
+        s1.assume(z3.And(kind[a] != K_ABSENT, kind[dirname(b)] == K_DIR,
+                         z3.Or(kind[b] == K_ABSENT, z3.And(kind[b] == K_FILE, kind[a] == K_FILE))))
+        if eng.feasible(s1):
+            eng.gwrite(s1, 'fs_kind', z3.Store(z3.Store(kind, b, kind[a]), a, K_ABSENT))
+            eng.gwrite(s1, 'fs_epoch', eng.gread(s1, 'fs_epoch'))
+            s1.trace.append('%s%d:ok' % (prim, node.lineno))
+            outs.append((s1, None))
+        s2 = st.fork()
+        s2.assume(kind[a] == K_ABSENT)
+        if eng.feasible(s2):
+            s2.trace.append('%s%d:missing' % (prim, node.lineno))
+            outs.append((s2, Raise(new_exc('FileNotFoundError', 'os'))))
+        outs.extend(self.may_fail(eng, st, node))
+        return outs
+
+    def i_os_rename(self, eng, st, f, pos, kws, node):
+        return self._move(eng, st, pos, node, 'rename')
+
+    def i_os_replace(self, eng, st, f, pos, kws, node):
+        return self._move(eng, st, pos, node, 'replace')
+
+    def i_os_makedirs(self, eng, st, f, pos, kws, node):
+        E = _effect()
+        p = self.path(eng, st, pos[0], node)
+        self.effect(eng, st, E.Makedirs(p), 'makedirs', [p], node)
+        kind = self.kind(eng, st)
+        outs = []
+        s1 = st.fork()
+        # success: p and all its ancestors are directories afterwards, nothing else changes kind
+        k2 = fresh('fs_after_makedirs', kind.sort())
+        x = z3.Const('qx!mk', StrS)
+        s1.assume(z3.ForAll([x], z3.If(anc(x, p), z3.And(k2[x] == K_DIR, kind[x] != K_FILE),
+                                       k2[x] == kind[x])))
+        eng.gwrite(s1, 'fs_kind', k2)
+        s1.trace.append('makedirs%d:ok' % node.lineno)
+        outs.append((s1, None))
+        outs.extend(self.may_fail(eng, st, node, ('OtherOSError', 'NotADirectoryError',
+                                                  'FileExistsError')))
+        return outs
+
+    def i_os_listdir(self, eng, st, f, pos, kws, node):
+        p = self.path(eng, st, pos[0], node)
+        kind = self.kind(eng, st)
+        outs = []
+        s1 = st.fork()
+        s1.assume(kind[p] == K_DIR)
+        if eng.feasible(s1):
+            l = fresh('listdir', z3.SeqSort(StrS))
+            n = z3.Const('qx!name', StrS)
+            c = z3.Const('qx!lchild', StrS)
+            # exactly the names of the existing children
+            s1.assume(z3.ForAll([n], z3.Implies(z3.Contains(l, z3.Unit(n)),
+                                                z3.And(kind[pjoin(p, n)] != K_ABSENT,
+                                                       dirname(pjoin(p, n)) == p,
+                                                       basename(pjoin(p, n)) == n,
+                                                       pjoin(p, n) != p))))
+            s1.assume(z3.ForAll([c], z3.Implies(z3.And(dirname(c) == p, c != p,
+                                                       kind[c] != K_ABSENT),
+                                                z3.Contains(l, z3.Unit(basename(c))))))
+            s1.trace.append('listdir%d:ok' % node.lineno)
+            outs.append((s1, Sym(l, LIST(STR), fresh=True)))
+        s2 = st.fork()
+        s2.assume(kind[p] == K_ABSENT)
+        if eng.feasible(s2):
+            outs.append((s2, Raise(new_exc('FileNotFoundError', 'os'))))
+        s3 = st.fork()
+        s3.assume(kind[p] == K_FILE)
+        if eng.feasible(s3):
+            outs.append((s3, Raise(new_exc('NotADirectoryError', 'os'))))
+        outs.extend(self.may_fail(eng, st, node))
+        return outs
+
+    def i_os_stat(self, eng, st, f, pos, kws, node):
+        p = self.path(eng, st, pos[0], node)
+        kind = self.kind(eng, st)
+        outs = []
+        s1 = st.fork()
+        s1.assume(kind[p] != K_ABSENT)
+        if eng.feasible(s1):
+            o = fresh('stat', ObjS)
+            ep = eng.gread(s1, 'fs_epoch')
+            s1.assume(z3.Function('stat_isdir', ObjS, BoolS)(o) == (kind[p] == K_DIR))
+            s1.assume(z3.Function('stat_st_size', ObjS, IntS)(o)
+                      == z3.Function('fs_size', StrS, IntS, IntS)(p, ep))
+            s1.assume(z3.Function('stat_st_mtime_ns', ObjS, IntS)(o)
+                      == z3.Function('fs_mtime', StrS, IntS, IntS)(p, ep))
+            outs.append((s1, Sym(o, OBJ('StatResult'))))
+        s2 = st.fork()
+        s2.assume(kind[p] == K_ABSENT)
+        if eng.feasible(s2):
+            outs.append((s2, Raise(new_exc('FileNotFoundError', 'os'))))
+        outs.extend(self.may_fail(eng, st, node))
+        return outs
+
+    def i_stat_S_ISDIR(self, eng, st, f, pos, kws, node):
+        mode = pos[0]
+        # mode comes from stat_st_mode(o): recover o
+        t = mode.t
+        if z3.is_app(t) and t.decl().name() == 'stat_st_mode':
+            o = t.arg(0)
+            return [(st, Sym(z3.Function('stat_isdir', ObjS, BoolS)(o), BOOL))]
+        raise Unsupported('S_ISDIR of unknown mode')
+
+    def i_tempfile_mkdtemp(self, eng, st, f, pos, kws, node):
+        E = _effect()
+        p = fresh('tmpdir', StrS)
+        kind = self.kind(eng, st)
+        st.assume(kind[p] == K_ABSENT)
+        st.assume(z3.Function('is_temp_path', StrS, BoolS)(p))
+        self.effect(eng, st, E.Mkdtemp(p), 'mkdtemp', [p], node)
+        s1 = st.fork()
+        eng.gwrite(s1, 'fs_kind', z3.Store(kind, p, K_DIR))
+        outs = [(s1, Sym(p, STR))]
+        outs.extend(self.may_fail(eng, st, node))
+        return outs
+
+    def i_shutil_rmtree(self, eng, st, f, pos, kws, node):
+        E = _effect()
+        p = self.path(eng, st, pos[0], node)
+        self.effect(eng, st, E.Rmtree(p), 'rmtree', [p], node)
+        kind = self.kind(eng, st)
+        k2 = fresh('fs_after_rmtree', kind.sort())
+        x = z3.Const('qx!rt', StrS)
+        # errors go to the handler (ignore_errors False + onerror given): never raises here
+        st.assume(z3.ForAll([x], z3.Implies(z3.Not(anc(p, x)), k2[x] == kind[x])))
+        eng.gwrite(st, 'fs_kind', k2)
+        return [(st, None)]
+
+    # ---- files (read side only; the cache file writer is modelled in i_gzip_open) ----------------
+    def i_open(self, eng, st, f, pos, kws, node):
+        mode = pos[1] if len(pos) > 1 else 'r'
+        if not isinstance(mode, str):
+            raise Unsupported('open with symbolic mode')
+        p = self.path(eng, st, pos[0], node)
+        if any(ch in mode for ch in 'wax+'):
+            raise Unsupported('open for writing outside Cache.write')
+        return self._open_read(eng, st, p, node)
+
+    def _open_read(self, eng, st, p, node):
+        kind = self.kind(eng, st)
+        outs = []
+        s1 = st.fork()
+        s1.assume(kind[p] == K_FILE)
+        if eng.feasible(s1):
+            o = fresh('fileobj', ObjS)
+            s1.assume(cls_of(o) == CLS['FileObj'])
+            s1.assume(z3.Function('file_path', ObjS, StrS)(o) == p)
+            outs.append((s1, Sym(o, OBJ('FileObj'))))
+        s2 = st.fork()
+        s2.assume(kind[p] == K_ABSENT)
+        if eng.feasible(s2):
+            outs.append((s2, Raise(new_exc('FileNotFoundError', 'os'))))
+        s3 = st.fork()
+        s3.assume(kind[p] == K_DIR)
+        if eng.feasible(s3):
+            outs.append((s3, Raise(new_exc('IsADirectoryError', 'os'))))
+        outs.extend(self.may_fail(eng, st, node))
+        return outs
+
+    def i_gzip_open(self, eng, st, f, pos, kws, node):
+        mode = pos[1] if len(pos) > 1 else 'rb'
+        if not isinstance(mode, str):
+            raise Unsupported('gzip.open with symbolic mode')
+        p = self.path(eng, st, pos[0], node)
+        if 'w' in mode or 'a' in mode or 'x' in mode:
+            E = _effect()
+            self.effect(eng, st, E.WriteOpen(p), 'write_open', [p], node)
+            kind = self.kind(eng, st)
+            outs = []
+            # the file is created (or truncated) as soon as the open succeeds
+            s1 = st.fork()
+            s1.assume(z3.And(kind[p] != K_DIR, kind[dirname(p)] == K_DIR))
+            if eng.feasible(s1):
+                eng.gwrite(s1, 'fs_kind', z3.Store(kind, p, K_FILE))
+                eng.gwrite(s1, 'fs_epoch', eng.gread(s1, 'fs_epoch') + 1)
+                o = fresh('gzfile', ObjS)
+                s1.assume(cls_of(o) == CLS['FileObj'])
+                s1.assume(z3.Function('file_path', ObjS, StrS)(o) == p)
+                s1.assume(z3.Function('file_writable', ObjS, BoolS)(o))
+                outs.append((s1, Sym(o, OBJ('FileObj'))))
+            outs.extend(self.may_fail(eng, st, node, ('OtherOSError', 'IsADirectoryError',
+                                                      'FileNotFoundError')))
+            return outs
+        return self._open_read(eng, st, p, node)
+
+    def i_file_write(self, eng, st, f, pos, kws, node):
+        # writing may fail at any time (ENOSPC); the file stays where the open left it
+        outs = [(st.fork(), None)]
+        outs.extend(self.may_fail(eng, st, node))
+        return outs
+
+    def i_file_read(self, eng, st, f, pos, kws, node):
+        o = f.self_val
+        b = fresh('bytes', IntS)
+        st.assume(b >= 0)
+        outs = [(st.fork(), Sym(b, Ty('bytes')))]
+        outs.extend(self.may_fail(eng, st, node))
+        return outs
+
+    def enter_with_extra(self, eng, st, cm, item, s, rest):
+        if isinstance(cm, Sym) and cm.ty.kind == 'obj' and cm.ty.cls == 'FileObj':
+            if item.optional_vars is not None:
+                outs0 = eng.assign(item.optional_vars, cm, st)
+            else:
+                outs0 = [(st, 'ok', None)]
+            outs = []
+            for (s0, c0, v0) in outs0:
+                outs.extend(eng.with_body(s, rest, s0))
+            return outs
+        if isinstance(cm, Sym) and cm.ty.kind == 'obj' and cm.ty.cls == 'FileBackups':
+            # with FileBackups() as backups:  __enter__ / body / __exit__ (which never re-raises)
+            enter = eng.prog.find_method('FileBackups', '__enter__')
+            exit_ = eng.prog.find_method('FileBackups', '__exit__')
+            outs = []
+            for (s1, v) in eng.call_repo(st, enter.qualname, [cm], {}, s):
+                if isinstance(v, Raise):
+                    outs.append((s1, 'exc', v.exc))
+                    continue
+                if item.optional_vars is not None:
+                    eng.assign(item.optional_vars, v, s1)
+                for (s2, ctrl, val) in eng.with_body(s, rest, s1):
+                    for (s3, v3) in eng.call_repo(s2, exit_.qualname, [cm, None, None, None], {}, s):
+                        if isinstance(v3, Raise):
+                            outs.append((s3, 'exc', v3.exc))
+                        else:
+                            outs.append((s3, ctrl, val))
+            return outs
+        return super().enter_with_extra(eng, st, cm, item, s, rest)
+
+    def i_json_load(self, eng, st, f, pos, kws, node):
+        # parsing a gzip text stream: any sanitized JSON value, or one of the documented errors
+        v = fresh('json_loaded', PyV)
+        s1 = st.fork()
+        s1.assume(J.sanitized(v))
+        outs = [(s1, Sym(v, PYV, fresh=True))]
+        for c in ('EOFError', 'OtherOSError', 'ValueError', 'ZlibError'):
+            s2 = st.fork()
+            s2.trace.append('json.load%d:%s' % (node.lineno, c))
+            outs.append((s2, Raise(new_exc(c, 'lib'))))
+        return outs
+
+    def i_json_dumps(self, eng, st, f, pos, kws, node):
+        return [(st, Sym(fresh('json_text', StrS), STR, fresh=True))]
+
+    def i_copy_deepcopy(self, eng, st, f, pos, kws, node):
+        v = pos[0]
+        if isinstance(v, Sym) and v.ty.kind == 'pyv':
+            return [(st, Sym(v.t, PYV, fresh=True))]
+        raise Unsupported('deepcopy of %r' % (v,))
+
+    def i_threading_Lock(self, eng, st, f, pos, kws, node):
+        return [(st, self.new_object(eng, st, 'Lock'))]
+
+    def i_contextlib_nullcontext(self, eng, st, f, pos, kws, node):
+        return [(st, self.new_object(eng, st, 'NullContext'))]
+
+    def i_hashlib_sha256(self, eng, st, f, pos, kws, node):
+        return [(st, self.new_object(eng, st, 'Digest'))]
+
+    def i_digest_update(self, eng, st, f, pos, kws, node):
+        return [(st, None)]
+
+    def i_digest_hexdigest(self, eng, st, f, pos, kws, node):
+        return [(st, Sym(fresh('hexdigest', StrS), STR))]
+
+    def i_getattr(self, eng, st, f, pos, kws, node):
+        raise Unsupported('getattr (use the dispatch contract)')
+
+    # ---- sorting lists of paths by length --------------------------------------------------------
+    def sorted_extra(self, eng, st, v, kws, node):
+        key = kws.get('key')
+        if isinstance(v, IterV):
+            v = self.to_list(eng, st, v)
+        if isinstance(v, ListV):
+            v = eng.to_seq(v, LIST(STR))
+        if isinstance(v, Sym) and v.ty.kind in ('list', 'set') and v.ty.args[0].kind == 'str':
+            if v.ty.kind == 'set':
+                v = self.to_list(eng, st, v)
+            out = fresh('sorted', v.t.sort())
+            x = z3.Const('qx!sorted', StrS)
+            i, j = z3.Consts('qi!s qj!s', IntS)
+            st.assume(z3.ForAll([x], z3.Contains(out, z3.Unit(x)) == z3.Contains(v.t, z3.Unit(x))))
+            st.assume(z3.Length(out) == z3.Length(v.t))
+            if key is None:
+                st.assume(z3.ForAll([i, j], z3.Implies(z3.And(0 <= i, i < j, j < z3.Length(out)),
+                                                       z3.Or(str_lt(out[i], out[j]),
+                                                             out[i] == out[j]))))
+            elif isinstance(key, LambdaV):
+                sign = self.len_key_sign(key.node)
+                if sign is None:
+                    raise Unsupported('sorted key')
+                if sign < 0:
+                    st.assume(z3.ForAll([i, j], z3.Implies(
+                        z3.And(0 <= i, i < j, j < z3.Length(out)),
+                        slen(out[i]) >= slen(out[j]))))
+                else:
+                    st.assume(z3.ForAll([i, j], z3.Implies(
+                        z3.And(0 <= i, i < j, j < z3.Length(out)),
+                        slen(out[i]) <= slen(out[j]))))
+            else:
+                raise Unsupported('sorted key')
+            return [(st, Sym(out, LIST(STR), fresh=True))]
+        return super().sorted_extra(eng, st, v, kws, node)
+
+    def len_key_sign(self, lam):
+        b = lam.body
+        arg = lam.args.args[0].arg
+        neg = False
+        if isinstance(b, ast.UnaryOp) and isinstance(b.op, ast.USub):
+            neg = True
+            b = b.operand
+        if isinstance(b, ast.Call) and isinstance(b.func, ast.Name) and b.func.id == 'len' \
+                and len(b.args) == 1 and isinstance(b.args[0], ast.Name) and b.args[0].id == arg:
+            return -1 if neg else 1
+        return None
+
+    # ---- callbacks ---------------------------------------------------------------------------------
+    def call_callback(self, eng, st, f, pos, kws, node, starv, dstarv):
+        """user function: counts the call, havocs what user code can reach, returns any object or
+        raises any Exception (identity recorded in the ghost `cb_exc`)"""
+        outs = []
+        ok = getattr(f, 'is_callable', None)
+        base = st
+        if ok is not None:
+            res = eng.branch(st, ok, 'CB%d' % node.lineno)
+            base = None
+            for (s1, b) in res:
+                if b:
+                    base = s1
+                else:
+                    outs.append((s1, Raise(new_exc('TypeError', 'lib'))))
+            if base is None:
+                return outs
+        eng.gwrite(base, 'ncalls', eng.gread(base, 'ncalls') + 1)
+        hook = getattr(eng.cur_contract, 'callback_havoc', None)
+        if hook is None:
+            raise Unsupported('callback call needs callback_havoc in the contract of %s'
+                              % eng.cur.qualname)
+        self.record_callback_args(eng, base, f, pos, kws, starv, dstarv, node)
+        hook(eng, base, f, pos, kws, starv, dstarv)
+        for g in ('fs_kind', 'eff', 'fs_epoch'):
+            eng.gwrite(base, g, fresh('Gcb!' + g, eng.GHOST_SORTS[g]))
+        al = eng.gread(base, 'alloc')
+        al2 = fresh('Gcb!alloc', al.sort())
+        o = z3.Const('qx!al', ObjS)
+        base.assume(z3.ForAll([o], z3.Implies(al[o], al2[o])))
+        eng.gwrite(base, 'alloc', al2)
+        s_ret = base.fork()
+        r = fresh('cb_result', PyV)
+        s_ret.assume(J.wf(r))
+        s_ret.trace.append('cb%d:ret' % node.lineno)
+        outs.append((s_ret, Sym(r, PYV, fresh=False)))
+        s_exc = base.fork()
+        cls = fresh('cb_exc_cls', ExcClsS)
+        exc = ExcV(cls, fresh('exc', IntS), 'callback')
+        s_exc.trace.append('cb%d:raise' % node.lineno)
+        outs.append((s_exc, Raise(exc)))
+        return outs
+
+    def record_callback_args(self, eng, st, f, pos, kws, starv, dstarv, node):
+        st.env['$cb_args'] = (pos, starv, dstarv)
+        hook = getattr(eng.cur_contract, 'on_callback', None)
+        if hook is not None:
+            hook(eng, st, f, pos, kws, starv, dstarv, node)
